@@ -21,7 +21,13 @@ pub struct InputEvent {
 impl InputEvent {
     pub fn text_string(&self) -> Option<String> {
         match &self.event {
-            Event::Text(t) => Some(String::from_utf8(t.to_vec()).expect("utf8")),
+            // Text content is still XML-escaped at this point; everything which
+            // consumes this (e.g. as a `text` attribute value) expects plain text.
+            Event::Text(t) => Some(
+                t.unescape()
+                    .map(|s| s.into_owned())
+                    .unwrap_or_else(|_| String::from_utf8_lossy(t).into_owned()),
+            ),
             _ => None,
         }
     }
@@ -446,7 +452,7 @@ impl OutputList {
                 continue;
             } else if !text_buf.is_empty() {
                 let content = Self::blank_line_remover(&text_buf);
-                let text_event = Event::Text(BytesText::new(&content).into_owned());
+                let text_event = Event::Text(BytesText::from_escaped(content));
                 text_buf.clear();
                 writer
                     .write_event(text_event)
@@ -457,7 +463,7 @@ impl OutputList {
         // re-add any trailing text
         if !text_buf.is_empty() {
             let content = Self::blank_line_remover(&text_buf);
-            let text_event = Event::Text(BytesText::new(&content).into_owned());
+            let text_event = Event::Text(BytesText::from_escaped(content));
             writer
                 .write_event(text_event)
                 .map_err(SvgdxError::from_err)?;
